@@ -175,8 +175,14 @@ def run(tier, seed):
         # ---- a string file that is rewritten between two decodes in one process
         synth = [pth for nm, pth in loader_files if nm.startswith('synth') and os.path.exists(pth)]
         import struct as _st
-        ent = lambda h, seq: (_st.pack('>IHHIHH', 0x11223344, 8 + 4, 0x4654, h, 77, 4) + b'\0\0\0\x2a' + _st.pack('>I', 28))[:28]
-        tdata = b'\x01\x20\x01\x42' + b'INFO'.ljust(16, b'\0') + _st.pack('>III', 32 + 2 * 28, 1, 0) + ent(12345, 1) + ent(112345, 2)
+        # entries whose hashes occur in the synthetic string files (picked from the file text; not an oracle), so that two files give different lines
+        import re as _re
+        hashes = []
+        for pth in synth:
+            hashes += [int(h) for h in _re.findall(r'^\s*([0-9]{1,9})\|\|', open(pth, errors='replace').read(), _re.M)][:6]
+        hashes = [h for h in dict.fromkeys(hashes) if h < 2 ** 32][:40] + [12345, 112345]
+        body = b''.join(enc_entry((0x1122, 0x3344 + i, 0x4654, h, 77 + i, b'\0\0\0\x2a', b'')) for i, h in enumerate(hashes, 1))
+        tdata = bytes([2, 32, 1, 0x42]) + b'INFO'.ljust(12, b'\0') + bytes(4) + _st.pack('>III', 32 + len(body), 1, 0) + body
         iod.check_rewritten_table_file(ck, 'strs', synth, lambda pth: tr.parse_trace_data(memoryview(tdata), pth), rng, 12 if thorough else 4)
     finally:
         shutil.rmtree(tmp, ignore_errors=True)
